@@ -311,8 +311,10 @@ def svg_source(r, gi=0, pal=None, vb=None, max_shapes=4, gradients=True, groups=
 
 
 def recur_transform(r, cx, cy, vb_size, kinds=None):
-    kinds = kinds or ["translate", "rotate", "rot90", "mirror", "uscale", "nuscale", "general", "bigscale"]
+    kinds = kinds or ["translate", "rotate", "rot90", "mirror", "uscale", "nuscale", "general", "bigscale", "identity"]
     k = r.choice(kinds)
+    if k == "identity":
+        return k, ""  # the same shape at exactly the same place (in another glyph, or twice in one)
     if k == "translate":
         return k, f"translate({r.uniform(-0.2,0.2)*vb_size:.2f} {r.uniform(-0.2,0.2)*vb_size:.2f})"
     if k == "rotate":
